@@ -47,11 +47,13 @@ TNext == TObserve \/ TExe
 \* CLS lines name the class of every evaluated record / call (the harness
 \* counts them: nothing may be skipped), REJECTED lines the records whose
 \* logged answer the specification does not allow.
-Verdict(ok, cls) == /\ PrintT(<<"CLS", idx, cls>>)
-                    /\ ok \/ PrintT(<<"REJECTED", idx, cls>>)
+Verdict(ok, cls, rejcls) == /\ PrintT(<<"CLS", idx, cls>>)
+                            /\ ok \/ PrintT(<<"REJECTED", idx, rejcls>>)
 
 Match == (out # Pending) =>
-           Verdict(out.open \/ Got(Traces[idx].got) \in out.allowed, out.cls)
+           LET got == Got(Traces[idx].got)
+           IN Verdict(out.open \/ got \in out.allowed, out.cls,
+                      IF got \in out.nl THEN "newline-translation" ELSE out.cls)
 
-MatchExe == (ev.op = "exe") => Verdict(memos # {}, ev.cls)
+MatchExe == (ev.op = "exe") => Verdict(memos # {}, ev.cls, ev.cls)
 =============================================================================
